@@ -121,6 +121,22 @@ func (c *Ctx) opFuncs(fn *ssa.Function) []*ssa.Function {
 	for i := 0; i < len(out) && len(out) < 64; i++ {
 		var scan func(f *ssa.Function)
 		scan = func(f *ssa.Function) {
+			// calls through a private interface: every implementation is part of the operation
+			for _, b := range f.Blocks {
+				for _, in := range b.Instrs {
+					ci, ok := in.(ssa.CallInstruction)
+					if !ok || !ci.Common().IsInvoke() {
+						continue
+					}
+					for _, impl := range c.privIfaceImpls(ci) {
+						if inSet[impl] || len(impl.Blocks) == 0 || namedAnchors[c.Key(impl)] || c.EntShape().isGenerated(impl) || c.FnInControl(impl) {
+							continue
+						}
+						inSet[impl] = true
+						out = append(out, impl)
+					}
+				}
+			}
 			for _, ci := range callsIn(f, false, func(cal *ssa.Function, _ ssa.CallInstruction) bool { return true }) {
 				cal := ci.Common().StaticCallee()
 				if cal == nil {
@@ -526,11 +542,93 @@ func (c *Ctx) callersOf(fn *ssa.Function) []ssa.CallInstruction {
 				if ci, ok := in.(ssa.CallInstruction); ok {
 					if cal := ci.Common().StaticCallee(); cal != nil && (cal == fn || cal.Origin() == fn) {
 						out = append(out, ci)
+					} else if ci.Common().IsInvoke() {
+						// a call through a private interface of the module reaches each of its implementations
+						for _, impl := range c.privIfaceImpls(ci) {
+							if impl == fn {
+								out = append(out, ci)
+							}
+						}
 					}
 				}
 			}
 		}
 	}
+	return out
+}
+
+// privIfaceImpls: for an invoke on an UNEXPORTED interface type declared in the module (a seam introduced inside a
+// package, not an API): the module methods it can dispatch to. Exported interfaces are open (anyone may implement
+// them) and are not resolved.
+func (c *Ctx) privIfaceImpls(ci ssa.CallInstruction) []*ssa.Function {
+	com := ci.Common()
+	if !com.IsInvoke() {
+		return nil
+	}
+	nm := namedOf(com.Value.Type())
+	if nm == nil || nm.Obj().Pkg() == nil || nm.Obj().Exported() || !strings.HasPrefix(nm.Obj().Pkg().Path(), modPath) {
+		return nil
+	}
+	iface, ok := nm.Underlying().(*types.Interface)
+	if !ok {
+		return nil
+	}
+	key := nm.Obj().Pkg().Path() + "." + nm.Obj().Name() + "." + com.Method.Name()
+	if c.implCache == nil {
+		c.implCache = map[string][]*ssa.Function{}
+	}
+	if v, ok := c.implCache[key]; ok {
+		return v
+	}
+	var out []*ssa.Function
+	for _, p := range c.Pkgs {
+		if !strings.HasPrefix(p.PkgPath, modPath) || p.Types == nil {
+			continue
+		}
+		sc := p.Types.Scope()
+		for _, name := range sc.Names() {
+			tn, ok := sc.Lookup(name).(*types.TypeName)
+			if !ok || tn.IsAlias() {
+				continue
+			}
+			t := tn.Type()
+			if _, isI := t.Underlying().(*types.Interface); isI {
+				continue
+			}
+			if n, isN := t.(*types.Named); isN && n.TypeParams().Len() > 0 {
+				continue
+			}
+			for _, cand := range []types.Type{t, types.NewPointer(t)} {
+				if types.Implements(cand, iface) {
+					if m := c.Prog.LookupMethod(cand, com.Method.Pkg(), com.Method.Name()); m != nil {
+						// the declared method, not the pointer-receiver wrapper of a value method
+						if m.Synthetic != "" && !strings.HasPrefix(m.Synthetic, "instance") {
+							for _, b := range m.Blocks {
+								for _, in := range b.Instrs {
+									if wc, ok := in.(ssa.CallInstruction); ok {
+										if cal := wc.Common().StaticCallee(); cal != nil && cal.Name() == m.Name() {
+											m = cal
+										}
+									}
+								}
+							}
+						}
+						dup := false
+						for _, o := range out {
+							if o == m {
+								dup = true
+							}
+						}
+						if !dup {
+							out = append(out, m)
+						}
+					}
+					break
+				}
+			}
+		}
+	}
+	c.implCache[key] = out
 	return out
 }
 
